@@ -126,6 +126,8 @@ def _work(args):
     faulthandler.dump_traceback_later(check.chunk_timeout, exit=True)
     agg = {"n": 0, "subruns": 0, "faults": {}, "probes": {}, "sim_time": 0.0, "steps": 0,
            "sd_all": set(), "sd_nt": set(), "viol": [], "nviol": 0, "nondet": [], "samples": []}
+    if os.environ.get("VERIF_DIGESTS"):
+        agg["digests"] = []
     seen_cls = {}
     for index in indices:
         plan = make_plan(check, seed, index, tier)
@@ -141,6 +143,8 @@ def _work(args):
             if out2.digest != out.digest:
                 agg["nondet"].append(index)
         agg["n"] += 1
+        if agg.get("digests") is not None:
+            agg["digests"].append((index, out.digest))
         agg["subruns"] += out.subruns
         for k, v in out.faults.items():
             agg["faults"][k] = agg["faults"].get(k, 0) + v
@@ -194,6 +198,8 @@ def _merge(total, agg):
     total["viol"].extend(agg["viol"])
     total["nviol"] += agg["nviol"]
     total["nondet"].extend(agg["nondet"])
+    if agg.get("digests") is not None:
+        total.setdefault("digests", []).extend(agg["digests"])
     if len(total["samples"]) < 3:
         total["samples"].extend(agg["samples"][:3 - len(total["samples"])])
 
@@ -204,6 +210,8 @@ def execute_classes(check, plan):
 
 
 def write_evidence(check, tier, seed, total, wall, nviol, known, extra=None):
+    if os.environ.get("VERIF_NO_EVIDENCE"):      # runs against a deliberately broken tree (self-tests, seeded changes)
+        return [p for p in check.required_probes if not total["probes"].get(p)]
     os.makedirs(os.path.join(VERIF, "evidence"), exist_ok=True)
     n = max(total["n"], 1)
     holes = [p for p in check.required_probes if not total["probes"].get(p)]
@@ -336,6 +344,9 @@ def run_batch(check, tier, seed, runs=None, workers=None, verbose=True):
     for kind, sig, index, plan, vj in new[6:]:
         print("VIOLATION-CLASS-NOT-MINIMISED property=%s kind=%s signature=%s index=%d" % (check.pid, kind, sig, index))
         rc = 1
+    if os.environ.get("VERIF_DIGESTS"):
+        with open(os.environ["VERIF_DIGESTS"], "w") as f:
+            json.dump(sorted(total.get("digests", [])), f)
     wall = time.time() - t0
     holes = write_evidence(check, tier, seed, total, wall, total["nviol"], sorted(set(known_lines)))
     for h in holes:
